@@ -196,8 +196,14 @@ CHECKS["C05"] = dict(
           "gate/circuit/program keeps the C01 relation on the global wire store with no evaluator error and equal tweak "
           "counters; C05_gc_safe: Program.GC (transitive alias closure, as repaired) never frees a wire range a later-read "
           "value points into, for every well-formed program; the allocator's hash table (bucket chains, move-to-front "
-          "lookup, remove) deletes exactly the requested header (C05_walloc_remove_exact)."),
-    note=TB + "Partial: AST->SSA front end and circuit cache validated only; the pre-fix GC and constant-padding defects are "
+          "lookup, remove) deletes exactly the requested header (C05_walloc_remove_exact). The step list the streaming walker "
+          "sees defines every value before its use: the check found that a lazily resolved phi could be read before its step "
+          "(both parties then computed on never-garbled wires; repaired by 73f8795), `defineBeforeUse` is in the model "
+          "(C05_defineBeforeUse_id, C05_gc_safe_reordered, old-behaviour witness) and the predicate is evaluated on every real "
+          "step list. C05_stream_session: for a well-formed streamed program the garbler's decoded result (decodeLabels by "
+          "position, as in C02) is the plain evaluation on the return wires."),
+    note=TB + "Partial: AST->SSA front end and circuit cache validated only; `defineBeforeUse` establishing the order for EVERY "
+              "scrambled list is validated per run (real Program.GC vs Lean gcPass on scrambled real step lists), not proved; the pre-fix GC and constant-padding defects are "
               "kept as theorems about explicitly named old definitions.")
 
 CHECKS["C10"] = dict(
